@@ -76,9 +76,146 @@ def _options_view_ok(tree: ast.Module) -> bool:
             and ast.unparse(t.handlers[0].body[0].exc).startswith("RequestOptionsError("))
 
 
+# --------------------------------------------------------------------------- specialisation to what the callers can pass
+KNOWN_LOCALS = {"request_key", "request_options", "request_type", "msg"}
+
+
+def _extra_params_at_default(fn: ast.FunctionDef) -> dict:
+    """Parameters of `check_valid` / `__call__` beyond (self, request, context).  Such a parameter is TRANSLATED by specialising
+    the body to the value every caller gives it: it must have a constant default and NO call site in the package may pass it
+    (positionally or by keyword), except the method handing its own parameter on unchanged in its recursion.  Then the parameter
+    IS its default on every execution, and the body is partially evaluated for that value (`_fold`).  Anything else raises: the
+    non-default behaviour would be code this model does not follow."""
+    from harness.lib.core import SRC
+    a = fn.args
+    if a.vararg or a.kwarg or a.kwonlyargs or a.posonlyargs:
+        raise ValueError(f"{fn.name}: *args / **kwargs / keyword-only parameters are not translated")
+    pos = [x.arg for x in a.args]
+    if pos[:3] != ["self", "request", "context"]:
+        raise ValueError(f"{fn.name}: parameters {pos} do not start with (self, request, context)")
+    extras = pos[3:]
+    if not extras:
+        return {}
+    if fn.name == "__call__":
+        raise ValueError(f"__call__ takes extra parameters {extras}: its call sites cannot be enumerated, not translated")
+    defaults = dict(zip(reversed(pos), reversed(a.defaults)))
+    consts = {}
+    for name in extras:
+        d = defaults.get(name)
+        if not isinstance(d, ast.Constant):
+            raise ValueError(f"{fn.name}: extra parameter {name} has no constant default")
+        consts[name] = d.value
+        for x in ast.walk(fn):
+            if isinstance(x, ast.Name) and x.id == name and not isinstance(x.ctx, ast.Load):
+                raise ValueError(f"{fn.name}: parameter {name} is reassigned in the body")
+    for f in sorted(SRC.rglob("*.py")):
+        for call in ast.walk(ast.parse(f.read_text())):
+            if not (isinstance(call, ast.Call) and isinstance(call.func, ast.Attribute) and call.func.attr == fn.name):
+                continue
+            for name in extras:
+                idx = pos.index(name) - 1
+                passed = [call.args[idx]] if len(call.args) > idx else []
+                passed += [kw.value for kw in call.keywords if kw.arg == name]
+                if any(kw.arg is None for kw in call.keywords) or any(isinstance(x, ast.Starred) for x in call.args):
+                    raise ValueError(f"{fn.name}: call with * / ** at {f.name}:{call.lineno}")
+                for v in passed:
+                    own_recursion = (str(f.relative_to(SRC)) == "simulator/core.py" and fn.lineno <= call.lineno <= fn.end_lineno
+                                     and isinstance(v, ast.Name) and v.id == name)
+                    if not own_recursion:
+                        raise ValueError(f"{fn.name}: optional parameter `{name}` is passed by {f.relative_to(SRC)}:{call.lineno} "
+                                         f"({ast.unparse(call)[:90]}): its non-default behaviour is not translated")
+    return consts
+
+
+def _const_test(test: ast.expr, consts: dict):
+    """truth value of a test that only looks at a parameter known to be at its default; None = not such a test"""
+    if isinstance(test, ast.Name) and test.id in consts:
+        return bool(consts[test.id])
+    if isinstance(test, ast.UnaryOp) and isinstance(test.op, ast.Not):
+        v = _const_test(test.operand, consts)
+        return None if v is None else (not v)
+    if (isinstance(test, ast.Compare) and len(test.ops) == 1 and isinstance(test.left, ast.Name) and test.left.id in consts
+            and isinstance(test.comparators[0], ast.Constant) and test.comparators[0].value is None):
+        if isinstance(test.ops[0], ast.Is):
+            return consts[test.left.id] is None
+        if isinstance(test.ops[0], ast.IsNot):
+            return consts[test.left.id] is not None
+    return None
+
+
+def _fold(stmts: list, consts: dict) -> list:
+    out = []
+    for st in stmts:
+        if isinstance(st, ast.If):
+            v = _const_test(st.test, consts)
+            if v is not None:
+                out += _fold(st.body if v else st.orelse, consts)
+                continue
+            st = ast.If(test=st.test, body=_fold(st.body, consts), orelse=_fold(st.orelse, consts))
+        out.append(st)
+    return out
+
+
+class _DropArgs(ast.NodeTransformer):
+    """the method handing its own at-default parameter on in its recursion: the argument is the default, drop it"""
+
+    def __init__(self, name: str, consts: dict):
+        self.name, self.consts = name, consts
+
+    def visit_Call(self, node: ast.Call):
+        self.generic_visit(node)
+        if isinstance(node.func, ast.Attribute) and node.func.attr == self.name:
+            node.args = [x for x in node.args if not (isinstance(x, ast.Name) and x.id in self.consts)]
+            node.keywords = [k for k in node.keywords if k.arg not in self.consts]
+        return node
+
+
+class _Subst(ast.NodeTransformer):
+    def __init__(self, name: str, value: ast.expr):
+        self.name, self.value = name, value
+
+    def visit_Name(self, node: ast.Name):
+        return self.value if node.id == self.name and isinstance(node.ctx, ast.Load) else node
+
+
+def _inline_temporaries(stmts: list, fn: ast.FunctionDef) -> list:
+    """`t = <expr>` immediately followed by an `if` whose test is the ONLY reader of `t`: the test with `<expr>` in place of `t`
+    (evaluation order and count unchanged: one evaluation, at the same point)."""
+    out, i = [], 0
+    while i < len(stmts):
+        st = stmts[i]
+        nxt = stmts[i + 1] if i + 1 < len(stmts) else None
+        if (isinstance(st, ast.Assign) and len(st.targets) == 1 and isinstance(st.targets[0], ast.Name)
+                and st.targets[0].id not in KNOWN_LOCALS and isinstance(nxt, ast.If)):
+            t = st.targets[0].id
+            reads_all = sum(1 for s in stmts for x in ast.walk(s) if isinstance(x, ast.Name) and x.id == t and isinstance(x.ctx, ast.Load))
+            writes_all = sum(1 for s in stmts for x in ast.walk(s) if isinstance(x, ast.Name) and x.id == t and not isinstance(x.ctx, ast.Load))
+            reads_test = sum(1 for x in ast.walk(nxt.test) if isinstance(x, ast.Name) and x.id == t)
+            if reads_all == 1 and reads_test == 1 and writes_all == 1:
+                out.append(ast.If(test=_Subst(t, st.value).visit(nxt.test), body=nxt.body, orelse=nxt.orelse))
+                i += 2
+                continue
+        out.append(st)
+        i += 1
+    return out
+
+
+def normalised_body(fn: ast.FunctionDef) -> list:
+    consts = _extra_params_at_default(fn)
+    body = list(fn.body)
+    if consts:
+        body = _fold(body, consts)
+        body = [ast.fix_missing_locations(_DropArgs(fn.name, consts).visit(st)) for st in body]
+        for st in body:   # nothing of the parameter may be left: what remains would be behaviour this model does not follow
+            for x in ast.walk(st):
+                if isinstance(x, ast.Name) and x.id in consts:
+                    raise ValueError(f"{fn.name}: parameter `{x.id}` still read after specialising to its default: {ast.unparse(st)[:120]}")
+    return [ast.fix_missing_locations(s) for s in _inline_temporaries(body, fn)]
+
+
 def steps_of(fn: ast.FunctionDef, flags: dict = None) -> list:
     out = []
-    for st in fn.body:
+    for st in normalised_body(fn):
         if _is_log_or_msg(st):
             continue
         src = ast.unparse(st)
